@@ -179,7 +179,9 @@ def shard(col, module, mode, pop_bound, limit, n_groups, variants):
 
 def run(ctx):
     quick = ctx.quick
-    modules = ["numeric", "containers", "shapes", "strings", "raising"]
+    modules = ["numeric", "containers", "shapes", "strings", "raising", "nested"]
+    if not quick:
+        modules += ["enums", "lambdas", "floats"]
     variants_q = [(False, False, True), (True, False, False), (False, True, True)]
     variants_t = [(s, x, m) for s in (False, True) for x in (False, True) for m in (False, True)]
     jobs = []
